@@ -75,32 +75,105 @@ fn enumeral(input: Input<'_>) -> ParserResult<'_, EnumeralInput<'_>> {
     .parse(input)
 }
 
+/// Parses a list of enumerals, numbering identifier-only items by their position.
+#[cfg(test)]
 fn enumerals<'a>(
     start_index: usize,
 ) -> impl Parser<Input<'a>, Output = Vec<Enumeral>, Error = ErrorTree<'a>> {
+    map(explicit_or_implicit_enumerals(), move |items| {
+        items
+            .into_iter()
+            .enumerate()
+            .map(|(i, (mut e, explicit))| {
+                if !explicit {
+                    e.index = (i + start_index) as i128;
+                }
+                e
+            })
+            .collect()
+    })
+}
+
+/// Parses a list of enumerals. Each enumeral is returned with a flag that
+/// indicates whether its number was given explicitly in the source.
+fn explicit_or_implicit_enumerals<'a>(
+) -> impl Parser<Input<'a>, Output = Vec<(Enumeral, bool)>, Error = ErrorTree<'a>> {
     fold_many0(
         enumeral,
-        Vec::<Enumeral>::new,
+        Vec::<(Enumeral, bool)>::new,
         move |mut acc, (name, index, _, comments)| {
-            acc.push(Enumeral {
-                name: name.into(),
-                description: comments.map(|c| c.into()),
-                index: index.unwrap_or((acc.len() + start_index) as i128),
-            });
+            acc.push((
+                Enumeral {
+                    name: name.into(),
+                    description: comments.map(|c| c.into()),
+                    index: index.unwrap_or_default(),
+                },
+                index.is_some(),
+            ));
             acc
         },
     )
 }
 
+/// Assigns the enumeration numbers of identifier-only items.
+/// *As defined in Rec. ITU-T X.680 (02/2021) §20.5 and §20.6*
+/// * identifier-only items of the root are numbered with successive integers starting at 0,
+///   skipping every number that is used explicitly in the root
+/// * an identifier-only addition gets the smallest number that is not used in the root
+///   and that is greater than the numbers of all preceding additions
+fn assign_enumeration_numbers(
+    root: Vec<(Enumeral, bool)>,
+    additions: Option<Vec<(Enumeral, bool)>>,
+) -> (Vec<Enumeral>, Option<Vec<Enumeral>>) {
+    let explicit_in_root: Vec<i128> = root
+        .iter()
+        .filter_map(|(e, explicit)| explicit.then_some(e.index))
+        .collect();
+    let mut next = 0;
+    let root: Vec<Enumeral> = root
+        .into_iter()
+        .map(|(mut e, explicit)| {
+            if !explicit {
+                while explicit_in_root.contains(&next) {
+                    next += 1;
+                }
+                e.index = next;
+                next += 1;
+            }
+            e
+        })
+        .collect();
+    let additions = additions.map(|additions| {
+        let mut previous: Option<i128> = None;
+        additions
+            .into_iter()
+            .map(|(mut e, explicit)| {
+                if !explicit {
+                    let mut candidate = previous.map_or(0, |p| (p + 1).max(0));
+                    while root.iter().any(|r| r.index == candidate) {
+                        candidate += 1;
+                    }
+                    e.index = candidate;
+                }
+                previous = Some(previous.map_or(e.index, |p| p.max(e.index)));
+                e
+            })
+            .collect()
+    });
+    (root, additions)
+}
+
 fn enumerated_body(input: Input<'_>) -> ParserResult<'_, EnumeralBody> {
     in_braces(|input| {
-        let (input, root_enumerals) = enumerals(0).parse(input)?;
+        let (input, root_enumerals) = explicit_or_implicit_enumerals().parse(input)?;
         let (input, ext_marker) = opt(terminated(
             extension_marker,
             skip_ws_and_comments(opt(char(COMMA))),
         ))
         .parse(input)?;
-        let (input, ext_enumerals) = opt(enumerals(root_enumerals.len())).parse(input)?;
+        let (input, ext_enumerals) = opt(explicit_or_implicit_enumerals()).parse(input)?;
+        let (root_enumerals, ext_enumerals) =
+            assign_enumeration_numbers(root_enumerals, ext_enumerals);
         Ok((input, (root_enumerals, ext_marker, ext_enumerals)))
     })
     .parse(input)
